@@ -972,3 +972,25 @@ mod tests {
         assert_eq!(runtime.hooks().run(&ctx), HookOutcome::Continue);
     }
 }
+
+/// Verification hooks (compiled only with `--cfg rip_verif`; see /verif/DESIGN.md §4.4).
+/// `point(name)` marks a file-system effect, lock step or publish step; with no callback
+/// installed it returns immediately.
+#[cfg(rip_verif)]
+pub mod verif {
+    use std::sync::{Arc, RwLock};
+
+    type Callback = Arc<dyn Fn(&str) + Send + Sync>;
+    static CALLBACK: RwLock<Option<Callback>> = RwLock::new(None);
+
+    pub fn install(cb: Option<Callback>) {
+        *CALLBACK.write().unwrap() = cb;
+    }
+
+    pub fn point(name: &str) {
+        let cb = CALLBACK.read().unwrap().clone();
+        if let Some(cb) = cb {
+            cb(name);
+        }
+    }
+}
